@@ -10,7 +10,7 @@ from .. import runner
 from ..elfread import Elf
 
 NEEDS_WILD = True
-LEAN_MODULES = ["WildModel.Props.C04"]
+LEAN_MODULES = ["WildModel.Props.C04", "WildModel.Props.C04Ext"]
 THEOREMS = [
     "Wild.Layout.alignUpN_spec",
     "Wild.Layout.alignModuloN_spec",
@@ -41,6 +41,11 @@ THEOREMS = [
     "Wild.Layout.segmentLayout_records",
     "Wild.Layout.segmentAlignments_ge",
     "Wild.Layout.load_segment_congruent_all",
+    "Wild.ShdrExt.decode_encode_shnum",
+    "Wild.ShdrExt.decode_encode_shstrndx",
+    "Wild.ShdrExt.fields_fit",
+    "Wild.ShdrExt.small_is_plain",
+    "Wild.ShdrExt.off_by_one_witness",
 ]
 LEVEL = "proof"
 TECHNIQUE = ("Lean 4 theorems over an executable model of OutputOrderBuilder / layout_section_parts / layout_sections / compute_segment_layout; "
@@ -55,6 +60,8 @@ TRUSTED = [
     "write_program_headers / write_section_headers are not modelled: tied by checking the written headers of every generated link directly "
     "(vlib/c04_elfcheck.py on vlib/elfread.py; cross-checked against readelf -lSW in the thorough tier)",
     "gcc/as to build inputs, glibc 2.36 + Linux loader for native runs, GNU ld 2.40 as behavioural reference in the three defect probes",
+    "model lean/WildModel/Model/ShdrExt.lean of the extended-section-numbering fields (populate_file_header e_shnum/e_shstrndx and the SHT_NULL arm of write_section_headers), "
+    "tied by the correspondence `shdr-ext` on links whose section count / .shstrtab index cross SHN_LORESERVE",
 ]
 RULE = ("generated links: 3-14 custom/standard sections of random size (0..70000), alignment (1..65536), flags (a, aw, ax, awT, nobits, note, "
         "non-alloc, merge) x output kind (static, static-pie, pie, no-pie dynamic, shared, -r; freestanding and glibc-based) x -z max-page-size x "
@@ -369,12 +376,15 @@ def many_sections_link(ctx, n, rel):
         rr, _, _ = lu.run([out])
         if rr != 0:
             bad.append(("run", f"the program with {n} sections exits with {rr}"))
-    return (out, len(el.sections), idx), bad
+    raw = f"e_shnum={el.e_shnum} e_shstrndx={el.e_shstrndx} sh0_size={el.sections[0].size} sh0_link={el.sections[0].link}"
+    shstr = [x.index for x in el.sections if x.name == ".shstrtab" and x.type == 3]
+    return (out, len(el.sections), idx, raw, shstr[0] if len(shstr) == 1 else -1), bad
 
 
 def section_count_boundary(ctx):
     """Outputs whose section count / .shstrtab index cross SHN_LORESERVE (0xff00): e_shnum = 0 + sh_size of header 0,
     e_shstrndx = SHN_XINDEX + sh_link of header 0 must switch over at exactly that value and agree with each other."""
+    ext_reqs, ext_impl = [], []
     for rel in ((False,) if ctx.quick else (False, True)):
         n0 = 65262
         info, bad = many_sections_link(ctx, n0, rel)
@@ -396,6 +406,10 @@ def section_count_boundary(ctx):
                 ctx.count("section-count-boundary", "rejected")
                 continue
             ctx.count("section-count-boundary", f"shnum=0x{info[1]:x} shstrndx=0x{info[2]:x}")
+            # correspondence with Model/ShdrExt.lean: the header fields for this (section count, position of .shstrtab)
+            if info[4] > 0:
+                ext_reqs.append(f"shdr-ext {info[1]} {info[4]}")
+                ext_impl.append(info[3])
             for k, m in bad:
                 key = viol_key(k)
                 if key.startswith("elf:"):
@@ -405,6 +419,10 @@ def section_count_boundary(ctx):
                 ctx.violation(key, f"{'-r' if rel else 'static'} link of {n} one-byte sections: {m}",
                               {"sections": n, "relocatable": rel, "violated": k, "how": "as: n x `.section secNNNNN,\"a\"; .byte 1` + _start; wild obj -o out --no-gc-sections"})
             os.unlink(info[0])
+    if ext_reqs:
+        dis, _, _ = ctx.differential("shdr-ext", ext_reqs, impl_out=ext_impl)
+        for l, a, b in dis[:2]:
+            ctx.violation("elf:shdr-ext", f"extended section numbering fields differ from the model for `{l}`: wild {a}, model {b}", {"request": l, "wild": a, "model": b})
 
 
 def run(ctx):
